@@ -43,6 +43,8 @@ func checkC01(c *Ctx, r *Report) {
 	c08StringCap(c, r, "C01.R1.string-cap")
 	wholeSectionScan(c, r, "C01.R3.opt-anywhere", "Msg.IsEdns0", "an OPT followed by two or more records is not found: packing an RCODE above 15 fails, a stale extended-RCODE octet is not reset, and Unpack returns only the low four bits of the RCODE")
 	exactRoomInDecoders(c, r, "C01.R2.exact-room", decodeScope(c))
+	base32Agreement(c, r, "C01.R2.base32-encoding", "NSEC3 records whose hash length is not a multiple of five octets unpack to text the packer refuses (or the other way round)")
+	optionCodes(c, r, "C01.R4.option-codes")
 }
 
 // sideStructs are the hand-written wire-format structs with their packers.
